@@ -780,8 +780,31 @@ def rule_c12_structure(repo, res):
         return lambda t, p: isinstance(t, ast.Call) and norm(t.func) == "isinstance" and len(t.args) == 2 \
             and "value_prop" in norm(t.args[0]) and norm(t.args[1]) == "self.numeric_types" and p == pol
     sc_ = flow.stmts_with_conds(fv.body)
-    ok = any(isinstance(st, ast.Raise) and flow.holds(c, numeric_test(False)) for st, c in sc_) and \
+
+    def polarities(t, pol, out):
+        """polarities under which the numeric test occurs inside condition *t* (True = asserted, False = negated)"""
+        if isinstance(t, ast.UnaryOp) and isinstance(t.op, ast.Not):
+            polarities(t.operand, not pol, out)
+        elif isinstance(t, ast.BoolOp):
+            for v in t.values:
+                polarities(v, pol, out)
+        elif isinstance(t, ast.Call) and norm(t.func) == "isinstance" and len(t.args) == 2 and "value_prop" in norm(t.args[0]) \
+                and norm(t.args[1]) == "self.numeric_types":
+            out.add(pol)
+        return out
+
+    def raise_pols(conds):
+        out = set()
+        for (t, p) in conds:
+            if isinstance(t, ast.AST):
+                polarities(t, p, out)
+        return out
+    strict = any(isinstance(st, ast.Raise) and flow.holds(c, numeric_test(False)) for st, c in sc_) and \
         not any(isinstance(st, ast.Raise) and flow.holds(c, numeric_test(True)) for st, c in sc_)
+    # the same guard folded into a richer condition (`q is not None and not (isinstance(value, q.cls) and <numeric test>)`,
+    # through a thin helper): the numeric test occurs negated in the condition of a raise, and in none asserted
+    pols = [raise_pols(c) for st, c in sc_ if isinstance(st, ast.Raise)]
+    ok = strict or (any(False in p_ for p_ in pols) and not any(p_ == {True} for p_ in pols))
     res.oblige("UNITS", "ODLEncoder.encode_value: a quantity is written only when its value is numeric, else ValueError", ok=ok)
     if not ok:
         res.add(Finding("UNITS", "ODLEncoder.encode_value", "numeric test", "ODLEncoder.encode_value no longer restricts units "
